@@ -1455,6 +1455,8 @@ ModelPtr buildApi(const IrModel &m)
         }
         if (u.import >= 0) {
             units->setSourceUnits(srcs[static_cast<size_t>(u.import)], u.importRef);
+        } else if (!u.importRef.empty()) {
+            units->setImportReference(u.importRef); // a reference left on a units that is not (or no longer) an import
         }
         for (const auto &k : u.units) {
             double e = k.hasExp ? strtod(k.exp.c_str(), nullptr) : 1.0;
@@ -1474,6 +1476,8 @@ ModelPtr buildApi(const IrModel &m)
         }
         if (c.import >= 0) {
             comp->setSourceComponent(srcs[static_cast<size_t>(c.import)], c.importRef);
+        } else if (!c.importRef.empty()) {
+            comp->setImportReference(c.importRef);
         }
         for (const auto &v : c.vars) {
             auto var = Variable::create(v.name);
@@ -1602,8 +1606,11 @@ std::string irCompPath(const IrModel &m, int ci)
 
 std::string irImportInfo(const IrModel &m, int import, const std::string &ref, const DumpOptions &o)
 {
-    if (!o.imports || import < 0) {
+    if (!o.imports) {
         return "";
+    }
+    if (import < 0) {
+        return ref.empty() ? "" : " importref-without-source=" + irQ(ref);
     }
     std::string s = " import{url=" + irQ(m.imports[static_cast<size_t>(import)].url) + " ref=" + irQ(ref);
     if (o.ids) {
